@@ -6,23 +6,21 @@ import CedarProofs.CacheLemmas
 namespace Cedar.C07
 open Cedar Cedar.SC
 
-/-- **key_injective**: under "no comma in tag, address or command" the rendered command-map key
-    determines the triple — so routes for different (tag, server, command) never collide. -/
+/-- **key_injective**: the rendered command-map key determines the triple — for ALL tags, addresses
+    and commands (commas and backslashes inside a part are escaped, fix D17) — so routes for
+    different (tag, server, command) never collide. -/
 theorem key_injective (tag addr cmd tag' addr' cmd' : Str)
-    (ht : NoComma tag) (ha : NoComma addr) (hc : NoComma cmd)
-    (ht' : NoComma tag') (ha' : NoComma addr') (hc' : NoComma cmd')
     (h : cmdKey tag addr cmd = cmdKey tag' addr' cmd') : tag = tag' ∧ addr = addr' ∧ cmd = cmd' :=
-  cmdKey_injective tag addr cmd tag' addr' cmd' ht ha hc ht' ha' hc' h
+  cmdKey_injective tag addr cmd tag' addr' cmd' h
 
-/-- the excluded point: with a comma in an address two different triples share a key (run on the
-    real cache by the clientcache engine's corpus; recorded in DESIGN.md as an observation). -/
-theorem key_collision_with_comma :
-    cmdKey "a".toList "b".toList "1".toList = cmdKey [] "a,b".toList "1".toList := by decide
+/-- the triples that collided before the fix (tag "a", server "b" vs no tag, server "a,b") now have
+    different keys; comma-free triples keep the keys they always had -/
+theorem comma_triples_distinct :
+    cmdKey "a".toList "b".toList "1".toList ≠ cmdKey [] "a,b".toList "1".toList := by decide
+example : cmdKey "t".toList "<1.2.3.4:9618>".toList "60007".toList = "{t,<1.2.3.4:9618>,<60007>}".toList := by decide
 
 /-- `MapCommand` sets exactly one route and leaves every other triple's route alone -/
-theorem mapCommand_route (c : Cache) (tag addr cmd sid t a m : Str)
-    (ht : NoComma tag) (ha : NoComma addr) (hc : NoComma cmd)
-    (ht' : NoComma t) (ha' : NoComma a) (hc' : NoComma m) :
+theorem mapCommand_route (c : Cache) (tag addr cmd sid t a m : Str) :
     (c.mapCommand tag addr cmd sid).cmdMap.lookup (cmdKey t a m) =
       if (t, a, m) = (tag, addr, cmd) then some sid else c.cmdMap.lookup (cmdKey t a m) := by
   unfold Cache.mapCommand
@@ -33,7 +31,7 @@ theorem mapCommand_route (c : Cache) (tag addr cmd sid t a m : Str)
   · rw [if_neg heq]
     have hk : cmdKey t a m ≠ cmdKey tag addr cmd := by
       intro hkk
-      obtain ⟨e1, e2, e3⟩ := cmdKey_injective _ _ _ _ _ _ ht' ha' hc' ht ha hc hkk
+      obtain ⟨e1, e2, e3⟩ := cmdKey_injective _ _ _ _ _ _ hkk
       exact heq (by rw [e1, e2, e3])
     have hb : (cmdKey t a m == cmdKey tag addr cmd) = false := beq_eq_false_iff_ne.mpr hk
     simp only [List.lookup, hb]
